@@ -1191,7 +1191,7 @@ static int buildMatrix (
 					{
 						EGLPNUM_TYPENAME_ILLdata_warn (raw->error_collector,
 													"Multiple coefficients for \"%s\" %s.",
-													lp->colnames[i], "in a row");
+													lp->colnames[ci], "in a row");
 						coefWarn[ci] = 1;
 					}
 				}
